@@ -11,6 +11,7 @@ pub mod rng;
 pub mod seams;
 pub mod sim;
 pub mod store;
+pub mod threads;
 
 pub use batch::{Harness, Opts, RunReport, Tier, Violation};
 pub use rng::Rng;
